@@ -217,12 +217,14 @@ func (w *wal) flush(batch WALBatch) error {
 		tupleLen := len(tupleBuf.Bytes())
 		binary.LittleEndian.PutUint32(tupleLenBuf, uint32(tupleLen))
 
+		verifPoint("wal.len", 0)
 		if n, err := w.reader.Write(tupleLenBuf); err != nil {
 			return err
 		} else if n != len(tupleLenBuf) {
 			panic("bytes written differs from expected buffer length")
 		}
 
+		verifPoint("wal.body", 0)
 		if n, err := w.reader.Write(tupleBuf.Bytes()); err != nil {
 			return err
 		} else if n != tupleLen {
@@ -230,9 +232,11 @@ func (w *wal) flush(batch WALBatch) error {
 		}
 
 		if w.forceSync {
+			verifPoint("wal.sync", 0)
 			if err := w.reader.Sync(); err != nil {
 				return err
 			}
+			verifPoint("wal.synced", 0)
 		}
 	}
 
